@@ -13,6 +13,8 @@ import re
 import time
 import json
 import argparse
+import tempfile
+import shutil
 import multiprocessing as mp
 import traceback
 
@@ -79,6 +81,81 @@ def phase1(task):
     except Exception as e:
         out['error'] = 'Exception: %s\n%s' % (e, traceback.format_exc()[-1500:])
     out['wall'] = time.time() - t0
+    return out
+
+
+def discharge_idxs(target, mode, timeout, tier, idxs):
+    import verify
+    prog = _G['prog']
+    ex, spec, con = get_ex(target, mode, tier)
+    obls = [ex.obls[i] for i in idxs]
+    res = verify.discharge(obls, timeout, hints=_G.get('hints'))
+    res_out = []
+    for o, r in zip(obls, res):
+        d = {'name': r.name, 'stable': stable(r.name), 'tags': r.tags, 'status': r.status, 'time': round(r.time, 4),
+             'solver': r.solver, 'where': r.where, 'kind': r.kind, 'fn': prog.short(r.fn), 'mode': mode,
+             'reason': r.reason}
+        if r.status != 'unsat':
+            d['model'] = r.model
+            d['probes'] = verify.probe_model(ex, spec, con, o) if r.status == 'sat' else {}
+            d['size'] = len(o.assumptions)
+        res_out.append(d)
+    return res_out
+
+
+def phase12(task):
+    """Generate the obligations of one (contract, mode), run the vacuity covers, then discharge the obligations: in this
+    process when there are few, in forked children (which inherit the symbolic execution instead of repeating it) when
+    there are many."""
+    target, mode, timeout, tier, skip, fan, pid = task
+    out = phase1((target, mode, timeout, tier))
+    if out['error']:
+        return out
+    ex = get_ex(target, mode, tier)[0]
+    # obligations that serve other properties only are not this check's business
+    idxs = [i for i in range(out['n']) if out['names'][i] not in skip and (pid is None or propmap.counts_for(pid, ex.obls[i].tags))]
+    only = os.environ.get('GOVC_ONLY')
+    if only:
+        idxs = [i for i in idxs if re.search(only, ex.obls[i].name)]
+    out['skipped'] = sorted(set(nm for nm in out['names'] if nm in skip))
+    k = min(fan, max(1, len(idxs) // 24))
+    t0 = time.time()
+    try:
+        if k <= 1:
+            out['results'] = discharge_idxs(target, mode, timeout, tier, idxs)
+        else:
+            tmpd = tempfile.mkdtemp(prefix='govc_fan_')
+            pids = []
+            for j in range(k):
+                pid_ = os.fork()
+                if pid_ == 0:
+                    code = 0
+                    try:
+                        r = {'results': discharge_idxs(target, mode, timeout, tier, idxs[j::k]), 'error': None}
+                    except BaseException as e:
+                        r = {'results': [], 'error': 'Exception: %s\n%s' % (e, traceback.format_exc()[-1500:])}
+                        code = 1
+                    try:
+                        with open(os.path.join(tmpd, '%d.json' % j), 'w') as f:
+                            json.dump(r, f)
+                    finally:
+                        os._exit(code)
+                pids.append(pid_)
+            for p_ in pids:
+                os.waitpid(p_, 0)
+            for j in range(k):
+                fp = os.path.join(tmpd, '%d.json' % j)
+                if not os.path.exists(fp):
+                    out['error'] = 'discharge child %d of %s died without a result' % (j, target)
+                    continue
+                r = json.load(open(fp))
+                out['results'] += r['results']
+                if r['error'] and not out['error']:
+                    out['error'] = r['error']
+            shutil.rmtree(tmpd, ignore_errors=True)
+    except Exception as e:
+        out['error'] = 'Exception: %s\n%s' % (e, traceback.format_exc()[-1500:])
+    out['wall2'] = time.time() - t0
     return out
 
 
@@ -180,29 +257,35 @@ def main():
             violations.append({'stable': '%s/%s/binding' % (pid, con.target), 'status': 'unbound', 'fn': con.target,
                                'reason': 'function under contract no longer exists with this name/receiver',
                                'where': '%s:%d' % (con.file, con.line), 'model': None, 'probes': {}})
+    _G['hints'] = load_baseline().get(pid + '!hints', {})
     ctx = mp.get_context('fork')
     results = []
     skipped_unclaimed = set()
+    skip = set()
+    if a.tier == 'quick' and not a.write_baseline:
+        # obligations that never passed (recorded when the baseline was written) are not part of the claim; the quick
+        # tier does not spend solver time on them (the thorough tier tries them again)
+        skip = set(load_baseline().get(pid + '!unclaimed', []))
+    base_n = {}
+    for nm in load_baseline().get(pid, []):
+        parts = nm.split('/')
+        if len(parts) > 1:
+            base_n[parts[1]] = base_n.get(parts[1], 0) + 1
+    # heavy functions first (by the number of obligations they had when the baseline was written)
+    def weight(tm):
+        try:
+            return -base_n.get(prog.short(spec.sf.contracts[tm[0]].fn), 0)
+        except Exception:
+            return 0
+    tasks = sorted(tasks, key=weight)
     with ctx.Pool(min(a.jobs, max(1, len(tasks)))) as pool:
-        outs = pool.map(phase1, [(t, m, timeout, a.tier) for (t, m) in tasks], chunksize=1)
-        jobs = []
+        outs = pool.map(phase12, [(t, m, timeout, a.tier, skip, 10, pid) for (t, m) in tasks], chunksize=1)
         for o in outs:
-            if o['error']:
-                continue
-            n = o['n']
-            chunk = 4
-            idxs = list(range(n))
-            if a.tier == 'quick' and not a.write_baseline:
-                # obligations that never passed (recorded when the baseline was written) are not part of the claim; the
-                # quick tier does not spend solver time on them (the thorough tier tries them again)
-                skip = set(load_baseline().get(pid + '!unclaimed', []))
-                idxs = [i for i in idxs if o['names'][i] not in skip]
-                skipped_unclaimed.update(nm for nm in o['names'] if nm in skip)
-            for lo in range(0, len(idxs), chunk):
-                jobs.append((o['target'], o['mode'], timeout, a.tier, idxs[lo:lo + chunk]))
-        # heavy functions first
-        jobs.sort(key=lambda j: -next(o['n'] for o in outs if o['target'] == j[0] and o['mode'] == j[1]))
-        outs2 = pool.map(phase2, jobs, chunksize=1)
+            skipped_unclaimed.update(o.get('skipped', []))
+            if a.v:
+                slow = sorted(o['results'], key=lambda r: -r['time'])[:3]
+                print('  %-50s %-4s n=%-4d symex+covers %.1fs discharge %.1fs  slowest: %s' % (o['target'][:50], o['mode'], o['n'], o['wall'], o.get('wall2', 0), ', '.join('%s %.1fs' % (r['stable'].split('/')[-1], r['time']) for r in slow)))
+        outs2 = outs
         # an `unknown` (time-out) on an obligation that the baseline says is provable is retried alone with a longer
         # time limit before it is believed (solver time-outs under full CPU load must not raise alarms)
         base_names = set(load_baseline().get(pid, []))
@@ -225,12 +308,6 @@ def main():
                     k3 = (o2['target'], o2['mode'], r['name'])
                     if k3 in fixed and fixed[k3]['status'] == 'unsat':
                         o2['results'][i] = fixed[k3]
-    bykey = {(o['target'], o['mode']): o for o in outs}
-    for o2 in outs2:
-        o = bykey[(o2['target'], o2['mode'])]
-        o['results'] += o2['results']
-        if o2['error'] and not o['error']:
-            o['error'] = o2['error']
     engine_errors = [o for o in outs if o['error']]
     if engine_errors:
         for o in engine_errors:
@@ -269,6 +346,16 @@ def main():
     if a.write_baseline:
         baseline[pid] = sorted(s for s in by_stable if s not in failed)
         baseline[pid + '!unclaimed'] = sorted(s for s in failed if not any(f['obligation'] == s for f in kf))
+        hints = {}
+        for s_, rs in by_stable.items():
+            for x in rs:
+                if x['status'] == 'unsat' and x.get('time', 0) > 3:
+                    sv = x.get('solver', '')
+                    if sv.startswith('cvc5') or sv.startswith('z3-4.8'):
+                        hints[s_] = 'ext'
+                    elif '+inst' in sv and s_ not in hints:
+                        hints[s_] = 'inst'
+        baseline[pid + '!hints'] = hints
         json.dump(baseline, open(os.path.join(ROOT, 'baseline_obligations.json'), 'w'), indent=1, sort_keys=True)
         print('baseline for %s: %d obligations' % (pid, len(baseline[pid])))
     base = set(baseline.get(pid, []))
